@@ -55,7 +55,8 @@ class Parallelogram(Domain):
         _, _, _, dir_1, dir_2 = self._construct_parallelogram(params, device=device)
         # volume equals the determinate of the matrix [dir_1, dir_2]
         volume = dir_1[:, :1] * dir_2[:, 1:] - dir_1[:, 1:] * dir_2[:, :1]
-        return volume
+        # the determinant is negative for clockwise ordered corners
+        return torch.abs(volume)
 
     def _construct_parallelogram(self, params=Points.empty(), device="cpu"):
         origin = self.origin(params, device).reshape(-1, 2)
@@ -272,6 +273,9 @@ class ParallelogramBoundary(BoundaryDomain):
         self._add_local_normal_vector(
             normals, bary_x, bary_y, normal_dir_1, normal_dir_2, 1.0
         )
+        # the rotated edge directions point outwards only for counter clockwise
+        # ordered corners, for clockwise order flip them:
+        normals *= torch.sign(dir_1[:, :1] * dir_2[:, 1:] - dir_1[:, 1:] * dir_2[:, :1])
         # scale normal vectors if there where in a corner:
         return torch.divide(normals, torch.linalg.norm(normals, dim=1).reshape(-1, 1))
 
